@@ -389,3 +389,369 @@ Property prop_C07(const std::string& variant) {
 }
 
 } // namespace e1
+
+// ---------------------------------------------------------------------------
+// C14: policies are isolated from one another
+
+namespace e1 {
+
+struct IsoOp {
+    int pol = 0;
+    std::string op; // load_def unload_def unload_class load_class update
+                    // error_call set_handler make_vp
+    int a = 0, b = 0;
+};
+
+struct IsoCase {
+    std::vector<SpecCase> pols; // same graph and ids, own methods
+    std::vector<IsoOp> ops;
+};
+
+static json to_json(const IsoCase& c) {
+    json j;
+    j["pols"] = json::array();
+    for (auto& p : c.pols) {
+        j["pols"].push_back(to_json(p));
+    }
+    j["ops"] = json::array();
+    for (auto& o : c.ops) {
+        j["ops"].push_back(
+            {{"pol", o.pol}, {"op", o.op}, {"a", o.a}, {"b", o.b}});
+    }
+    return j;
+}
+
+static IsoCase iso_from_json(const json& j) {
+    IsoCase c;
+    for (auto& jp : j.at("pols")) {
+        c.pols.push_back(spec_case_from_json(jp));
+    }
+    for (auto& jo : j.at("ops")) {
+        c.ops.push_back({jo.at("pol"), jo.at("op"), jo.value("a", 0),
+                         jo.value("b", 0)});
+    }
+    return c;
+}
+
+struct PolState {
+    Config* cfg = nullptr;
+    const Spec* spec = nullptr;
+    std::unique_ptr<World> w;
+    std::unique_ptr<Live> live;
+    bool clean = false; // updated, and nothing registered/unregistered since
+    int handler_mode = 0;
+    std::vector<std::pair<int, void*>> vps; // (class, virtual_ptr handle)
+    ~PolState() {
+        for (auto& v : vps) {
+            cfg->vp_del(v.second);
+        }
+    }
+};
+
+using Snapshot = std::vector<std::pair<std::string, std::uint64_t>>;
+
+// Everything observable about a settled policy.
+static Snapshot snapshot(PolState& p) {
+    Snapshot sn;
+    World& w = *p.w;
+    std::vector<std::pair<int, std::vector<int>>> sel;
+    Spec ls = p.live->live_spec(sel);
+    World view(w, ls, sel);
+    Obs obs = observe(view);
+    vf::Fnv h;
+    for (auto& [k, v] : obs.disp) {
+        h.add(k.first);
+        h.add(k.second);
+        for (int x : v) {
+            h.add(std::uint64_t(x + 10));
+        }
+    }
+    sn.push_back({"dispatch of some tuple", h.h});
+    vf::Fnv hn;
+    for (auto& [k, v] : obs.next) {
+        hn.add(std::get<0>(k));
+        hn.add(std::get<1>(k));
+        hn.add(std::get<2>(k));
+        hn.add(std::uint64_t(v + 10));
+    }
+    sn.push_back({"next of some definition", hn.h});
+    auto& dd = *p.cfg->dispatch_data;
+    sn.push_back({"dispatch_data address",
+                  reinterpret_cast<std::uint64_t>(dd.data())});
+    sn.push_back({"dispatch_data size", dd.size()});
+    vf::Fnv hd;
+    for (auto x : dd) {
+        hd.add(x);
+    }
+    sn.push_back({"dispatch_data content", hd.h});
+    HashState hs = p.cfg->hash_state();
+    sn.push_back({"hash multiplier", hs.mult});
+    sn.push_back({"hash shift", hs.shift});
+    sn.push_back({"hash length", hs.length});
+    sn.push_back({"hash min", hs.min});
+    sn.push_back({"hash max", hs.max});
+    vf::Fnv hc;
+    for (std::size_t i = 0; i < hs.control_size; ++i) {
+        hc.add(hs.control[i]);
+    }
+    sn.push_back({"hash control table", hc.h});
+    sn.push_back({"v-table pointer table size", p.cfg->vptrs_size()});
+    for (int c = 0; c < ls.n; ++c) {
+        if (p.live->cls[c]) {
+            const std::uintptr_t* vp = nullptr;
+            guarded([&] { vp = p.cfg->dynamic_vptr(w.objs[c]); });
+            sn.push_back({"v-table found for class " + std::to_string(c),
+                          reinterpret_cast<std::uint64_t>(vp)});
+        }
+    }
+    for (auto& v : p.vps) {
+        sn.push_back({"v-table of a live virtual_ptr",
+                      reinterpret_cast<std::uint64_t>(
+                          p.cfg->vp_vptr(v.second))});
+    }
+    // which handler fires on a provoked error
+    for (std::size_t m = 0; m < view.meths.size(); ++m) {
+        Tuples tu(ls, ls.meths[m], 200);
+        bool done = false;
+        while (tu.next() && !done) {
+            if (dispatch(ls, ls.meths[m], tu.t.data()).kind != K_DEF) {
+                auto args = view.make_args(ls.meths[m], tu.t.data());
+                int before = *p.cfg->deliveries;
+                ErrorRec e = guarded([&] {
+                    view.meths[m].desc->call(args.objs, args.ints, nullptr);
+                });
+                sn.push_back({"kind of error a failing call raises",
+                              std::uint64_t(e.kind)});
+                sn.push_back({"deliveries to this policy's handler",
+                              std::uint64_t(*p.cfg->deliveries - before)});
+                done = true;
+            }
+        }
+        if (done) {
+            break;
+        }
+    }
+    return sn;
+}
+
+static std::string diff_snapshot(const Snapshot& a, const Snapshot& b) {
+    if (a.size() != b.size()) {
+        return "the set of observations";
+    }
+    for (std::size_t i = 0; i < a.size(); ++i) {
+        if (a[i] != b[i]) {
+            return a[i].first;
+        }
+    }
+    return "";
+}
+
+static Outcome run_iso(const IsoCase& c) {
+    Outcome o;
+    vf::Fnv h;
+    for (auto& p : c.pols) {
+        h.add(hash_case(p));
+    }
+    for (auto& op : c.ops) {
+        h.add(op.pol);
+        h.add(op.op);
+        h.add(op.a);
+        h.add(op.b);
+    }
+    o.hash = h.h;
+    std::vector<std::unique_ptr<PolState>> ps;
+    for (auto& pc : c.pols) {
+        auto p = std::make_unique<PolState>();
+        p->cfg = &need_config(pc.cfg);
+        p->spec = &pc.spec;
+        p->w = std::make_unique<World>(*p->cfg, pc.spec);
+        p->w->build_class_records();
+        p->w->build_methods();
+        p->live = std::make_unique<Live>(*p->w);
+        ps.push_back(std::move(p));
+    }
+    bool update_between = false;
+    int step = 0;
+    for (auto& op : c.ops) {
+        ++step;
+        if (!o.ok) {
+            break;
+        }
+        PolState& b = *ps[op.pol % ps.size()];
+        // snapshots of the other settled policies
+        std::vector<std::pair<PolState*, Snapshot>> before;
+        for (auto& q : ps) {
+            if (q.get() != &b && q->clean) {
+                before.push_back({q.get(), snapshot(*q)});
+            }
+        }
+        const Spec& s = *b.spec;
+        int nm = int(s.meths.size());
+        if (op.op == "load_def" && nm) {
+            int m = op.a % nm;
+            if (!s.meths[m].defs.empty()) {
+                b.live->load_def(m, op.b % int(s.meths[m].defs.size()));
+                b.clean = false;
+            }
+        } else if (op.op == "unload_def" && nm) {
+            int m = op.a % nm;
+            if (!s.meths[m].defs.empty()) {
+                b.live->unload_def(m, op.b % int(s.meths[m].defs.size()));
+                b.clean = false;
+            }
+        } else if (op.op == "load_class") {
+            b.live->load_class(op.a % s.n);
+            b.clean = false;
+        } else if (op.op == "unload_class") {
+            // virtual_ptrs to unloaded classes die with them
+            b.live->unload_class(op.a % s.n);
+            for (std::size_t i = 0; i < b.vps.size();) {
+                if (!b.live->cls[b.vps[i].first]) {
+                    b.cfg->vp_del(b.vps[i].second);
+                    b.vps.erase(b.vps.begin() + i);
+                } else {
+                    ++i;
+                }
+            }
+            b.clean = false;
+        } else if (op.op == "update") {
+            UpdateOutcome up;
+            Outcome ou;
+            if (!do_update(*b.w, ou, up)) {
+                if (!ou.ok) {
+                    o.fail("isolation-" + ou.message);
+                } else {
+                    o.inconclusive = true;
+                }
+                break;
+            }
+            if (!b.cfg->indirect) {
+                // direct virtual_ptrs are valid until the next update
+                for (auto& v : b.vps) {
+                    b.cfg->vp_del(v.second);
+                }
+                b.vps.clear();
+            }
+            b.clean = true;
+            if (!before.empty()) {
+                update_between = true;
+            }
+        } else if (op.op == "set_handler") {
+            b.handler_mode = op.a % 2 ? 3 : 0;
+            b.cfg->set_handler_mode(b.handler_mode);
+        } else if (op.op == "make_vp" && b.clean) {
+            int cls = op.a % s.n;
+            if (b.live->cls[cls]) {
+                void* vp = nullptr;
+                guarded([&] { vp = b.cfg->vp_new(&b.w->objs[cls]); });
+                if (vp) {
+                    b.vps.push_back({cls, vp});
+                }
+            }
+        } else if (op.op == "error_call" && b.clean) {
+            snapshot(b); // includes a provoked error on b
+        }
+        for (auto& [q, sn] : before) {
+            Snapshot after = snapshot(*q);
+            auto d = diff_snapshot(sn, after);
+            if (!d.empty()) {
+                o.fail("isolation: '" + op.op + "' on policy " + b.cfg->name +
+                       " changed " + d + " of policy " + q->cfg->name +
+                       " (step " + std::to_string(step) + ")");
+                break;
+            }
+        }
+    }
+    // tear down in reverse order of construction
+    while (!ps.empty()) {
+        ps.pop_back();
+    }
+    o.nontrivial = update_between;
+    if (update_between) {
+        o.classes.push_back("update_of_B_between_observations_of_A");
+    }
+    for (auto& pc : c.pols) {
+        o.classes.push_back(need_config(pc.cfg).name.c_str());
+    }
+    return o;
+}
+
+static IsoCase gen_iso(Choice& ch, int size) {
+    IsoCase c;
+    GenOpts o;
+    o.id_schemes = {"small"};
+    o.max_classes = 8;
+    o.max_methods = 3;
+    o.max_defs = 6;
+    o.gappy = true;
+    Spec graph = gen_spec(ch, o, std::max(size, 15));
+    int np = 2 + ch.draw(2);
+    std::vector<std::string> pool = {"chk_vec", "fast_vec", "map",
+                                     "nohash_vec", "chk_vec_ind"};
+    for (int i = 0; i < np; ++i) {
+        SpecCase pc;
+        std::size_t k = ch.draw(pool.size());
+        pc.cfg = pool[k];
+        pool.erase(pool.begin() + k);
+        pc.spec = graph;
+        if (i > 0) {
+            // same classes and ids, its own methods and definitions
+            pc.spec.meths.clear();
+            gen_methods(ch, pc.spec, o, std::max(size, 15));
+        }
+        c.pols.push_back(pc);
+    }
+    // bring every policy up
+    for (int i = 0; i < np; ++i) {
+        int burst = 1 + ch.draw(6);
+        for (int k = 0; k < burst; ++k) {
+            c.ops.push_back({i, "load_def", int(ch.draw(4)), int(ch.draw(8))});
+        }
+        c.ops.push_back({i, "update", 0, 0});
+    }
+    static const char* kinds[] = {"load_def",   "unload_def",  "update",
+                                  "update",     "load_class",  "unload_class",
+                                  "set_handler", "make_vp",    "make_vp",
+                                  "error_call"};
+    int nops = 2 + ch.draw(std::max(2, std::min(20, size / 3)));
+    for (int i = 0; i < nops; ++i) {
+        c.ops.push_back({int(ch.draw(np)), kinds[ch.draw(10)],
+                         int(ch.draw(8)), int(ch.draw(8))});
+    }
+    return c;
+}
+
+Property prop_C14(const std::string& variant) {
+    Property p;
+    p.id = "C14";
+    p.variant = variant;
+    p.generate = [](Choice& ch, int size) {
+        return to_json(gen_iso(ch, size));
+    };
+    p.run = [](const json& j) { return run_iso(iso_from_json(j)); };
+    p.fast = [](Choice& ch, int size, std::function<json()>& lazy) {
+        auto c = std::make_shared<IsoCase>(gen_iso(ch, size));
+        lazy = [c]() { return to_json(*c); };
+        return run_iso(*c);
+    };
+    p.shrinks = [](const json& j) {
+        IsoCase c = iso_from_json(j);
+        std::vector<json> out;
+        for (std::size_t i = 0; i < c.ops.size(); ++i) {
+            IsoCase r = c;
+            r.ops.erase(r.ops.begin() + i);
+            out.push_back(to_json(r));
+        }
+        for (std::size_t k = 0; k < c.pols.size(); ++k) {
+            for (std::size_t i = 0; i < c.pols[k].spec.meths.size(); ++i) {
+                IsoCase r = c;
+                r.pols[k].spec.meths.erase(r.pols[k].spec.meths.begin() + i);
+                out.push_back(to_json(r));
+            }
+        }
+        return out;
+    };
+    return p;
+}
+
+} // namespace e1
